@@ -66,16 +66,61 @@ def expr_core(work):
     slices += [ed, ctor]
     # --- ValueTypeEquality
     vte = X.braced(src, "struct ValueTypeEquality", r"^struct ValueTypeEquality")
-    m = re.search(r"struct ValueTypeEquality\s*\{\s*(template <typename T1, typename T2>)\s*bool operator\(\)\(const T1& a, const T2& b\) const\s*(\{.*\})\s*\};", vte.text, re.S)
+    m = re.search(r"struct ValueTypeEquality\s*\{\s*template <typename T1, typename T2>\s*bool operator\(\)\(const T1& a, const T2& b\) const\s*\{(.*)\}\s*\};", vte.text, re.S)
     if not m:
         raise X.ExtractionBroken("ValueTypeEquality: shape changed (rule L18 must fire)")
-    vte.text = "namespace UTAP {\n" + m.group(1) + "\ninline bool ValueTypeEquality__call(const T1& a, const T2& b)\n" + m.group(2) + "\n}\n"
-    vte.rules["L18:member-template operator()->free function template"] = 1
-    vte.sub("L1:if constexpr", r"if constexpr \(", "if (", required=True)
-    vte.sub("L6:std::is_same_v<T1, T2>->verif_same_type(a, b)", r"std::is_same_v<T1, T2>", "verif_same_type(a, b)", required=True)
-    for trait in ("arithmetic", "integral", "floating_point", "enum"):
-        vte.sub("L6:std::is_%s_v<T>->verif_is_%s(value)" % (trait, trait), r"std::is_%s_v<T1>" % trait, "verif_is_%s(a)" % trait)
-        vte.sub("L6:std::is_%s_v<T>->verif_is_%s(value)" % (trait, trait), r"std::is_%s_v<T2>" % trait, "verif_is_%s(b)" % trait)
+    body = m.group(1)
+    # Rule L18: the member-template operator() becomes sixteen free functions, one per pair of alternatives of the value
+    # variant, with T1 / T2 replaced by the concrete types and every `if constexpr` decided by the generator from the
+    # <type_traits> facts of the four alternatives (so a discarded branch need not compile, exactly as in C++).
+    ALTS = [("int32_t", dict(arithmetic=True, integral=True, floating_point=False, enum=False)),
+            ("synchronisation_t", dict(arithmetic=False, integral=False, floating_point=False, enum=True)),
+            ("double", dict(arithmetic=True, integral=False, floating_point=True, enum=False)),
+            ("StringIndex", dict(arithmetic=False, integral=False, floating_point=False, enum=False))]
+
+    def decide(cond, t1, f1, t2, f2):
+        c = cond
+        c = re.sub(r"std::is_same_v<\s*T1\s*,\s*T2\s*>|std::is_same_v<\s*T2\s*,\s*T1\s*>", str(t1 == t2), c)
+        for tr in ("arithmetic", "integral", "floating_point", "enum"):
+            c = re.sub(r"std::is_%s_v<\s*T1\s*>" % tr, str(f1[tr]), c)
+            c = re.sub(r"std::is_%s_v<\s*T2\s*>" % tr, str(f2[tr]), c)
+        c = c.replace("&&", " and ").replace("||", " or ").replace("!", " not ")
+        if not re.fullmatch(r"[\s()]*(?:(?:True|False|and|or|not)[\s()]*)+", c):
+            raise X.ExtractionBroken("ValueTypeEquality: an `if constexpr` condition rule L18 cannot decide: " + cond.strip())
+        return bool(eval(c))
+
+    def resolve(txt, t1, f1, t2, f2):
+        """statement text -> the statement that survives the if-constexpr chain"""
+        ts = X.Source("<vte>", text=txt)
+        mm = re.match(r"\s*if constexpr\s*\(", txt)
+        if not mm:
+            return txt
+        p = mm.end() - 1
+        pe = ts.match_brace(p)
+        cond = txt[p + 1:pe - 1]
+        then_end = X._statement_end(ts, pe)
+        then_txt = txt[pe:then_end]
+        rest = txt[then_end:]
+        em = re.match(r"\s*else\b", rest)
+        else_txt = rest[em.end():] if em else ""
+        if decide(cond, t1, f1, t2, f2):
+            return resolve(then_txt, t1, f1, t2, f2)
+        return resolve(else_txt, t1, f1, t2, f2) if else_txt.strip() else ""
+    out = ["namespace UTAP {"]
+    n_branches = 0
+    for t1, f1 in ALTS:
+        for t2, f2 in ALTS:
+            stmt = resolve(body, t1, f1, t2, f2).strip()
+            if not stmt:
+                raise X.ExtractionBroken("ValueTypeEquality: no statement survives for <%s, %s>" % (t1, t2))
+            stmt = re.sub(r"\bT1\b", t1, stmt)
+            stmt = re.sub(r"\bT2\b", t2, stmt)
+            stmt = re.sub(r"std::numeric_limits<\s*double\s*>::epsilon\(\)", "2.220446049250313e-16", stmt)
+            out.append("inline bool ValueTypeEquality__call(const %s& a, const %s& b)\n{\n    %s\n}" % (t1, t2, stmt))
+            n_branches += 1
+    out.append("}")
+    vte.text = "\n".join(out) + "\n"
+    vte.rules["L18:member-template operator()->one free function per pair of variant alternatives, if constexpr decided per pair"] = n_branches
     write(work, "expr_value_eq.inc", vte.text)
     slices.append(vte)
     # --- functions
